@@ -68,6 +68,18 @@ def extract_constants(c):
     if not asg:
         c.broken.append("proof obligation: the dt sign assignment of reb_simulation_integrate_raw was not found")
     K["syncFirst"] = int(bool(asg) and "reb_simulation_synchronize" in blk[:asg.start()])
+    # do the synchronisations that precede an assignment to dt ignore keep_unsynchronized?
+    nforce = len(re.findall(r"reb_simulation_synchronize_before_dt_change\(r\);", rsrc))
+    mce = re.search(r"int reb_check_exit\(.*?\n\}", rsrc, flags=re.S)
+    nplain = len(re.findall(r"reb_simulation_synchronize\(r\);\s*(?:if \(r->dt_last_done[^\n]*\n[^\n]*\n\s*\}\s*)?r->dt = tmax-r->t;", mce.group(0))) if mce else -1
+    if nforce == 4 and nplain == 0:
+        K["forceSync"] = 1
+    elif nforce == 0 and nplain == 2:
+        K["forceSync"] = 0
+    else:
+        K["forceSync"] = 0
+        c.broken.append("proof obligation: reb_check_exit / integrate_raw: %d forced and %d plain synchronisations before dt assignments (expected 4/0 or 0/2)" % (nforce, nplain))
+    c.cov["dt_assignment_sync_variant"] = "forced (ignores keep_unsynchronized)" if K["forceSync"] else "as found (honours keep_unsynchronized: C09:exact-finish-with-keep-unsynchronized)"
     c.cov["integrate_entry_variant"] = "synchronises before flipping dt" if K["syncFirst"] else "as found (flips the sign of dt without synchronising: C09-integrate-reverse)"
     # SABA source variants: (1) which N_active do the transformation calls of integrator_saba.c pass,
     # (2) is the keep_unsynchronized copy taken inside the is_synchronized test (see RV.Sync.SabaConfig)
@@ -166,7 +178,7 @@ class World:
             getattr(lib, n).argtypes = [ctypes.c_void_p, D]
             getattr(lib, n).restype = None
         for n in ("reb_integrator_whfast_from_inertial", "reb_integrator_whfast_to_inertial", "reb_simulation_update_acceleration",
-                  "reb_whfast_calculate_jerk", "reb_simulation_step", "reb_simulation_synchronize",
+                  "reb_whfast_calculate_jerk", "reb_simulation_step", "reb_simulation_synchronize", "reb_simulation_rescale_var",
                   "reb_integrator_mercurius_inertial_to_dh", "reb_integrator_mercurius_dh_to_inertial"):
             getattr(lib, n).argtypes = [ctypes.c_void_p]
             getattr(lib, n).restype = None
@@ -336,6 +348,24 @@ class World:
                 lib.reb_integrator_mercurius_kepler_step(r, ev(arg, dt, K))
                 # encounter_predict / encounter_step are static: the replay is restricted to steps
                 # without close encounter (checked on the twin), where they change nothing persisted
+            elif name in ("vC", "vPos", "vPosvel"):
+                nreal = N - s.N_var
+                nact_r = nreal if (s.N_active == -1 or s.testparticle_type == 1) else s.N_active
+                for v in range(s.N_var_config):
+                    idx = s.var_config[v].index
+                    pjv = ctypes.cast(ctypes.addressof(s.ri_whfast._p_jh.contents) + idx * self.psz, ctypes.POINTER(self.P))
+                    ppv = ctypes.cast(ctypes.addressof(s._particles.contents) + idx * self.psz, ctypes.POINTER(self.P))
+                    if name == "vC":
+                        tau = ev(arg, dt, K)
+                        pjv[0].x = pjv[0].x + tau * pjv[0].vx
+                        pjv[0].y = pjv[0].y + tau * pjv[0].vy
+                        pjv[0].z = pjv[0].z + tau * pjv[0].vz
+                    elif name == "vPos":
+                        lib.reb_particles_transform_jacobi_to_inertial_pos(ppv, pjv, s._particles, ctypes.c_uint(nreal), ctypes.c_uint(nact_r))
+                    else:
+                        lib.reb_particles_transform_jacobi_to_inertial_posvel(ppv, pjv, s._particles, ctypes.c_uint(nreal), ctypes.c_uint(nact_r))
+            elif name == "vRescale":
+                lib.reb_simulation_rescale_var(r)
             elif name == "sabaInit":
                 if arg == "1":
                     s._gravity = 5            # REB_GRAVITY_JACOBI
@@ -451,9 +481,10 @@ class Clock:
             dld = self.dt
             if not last:
                 n += 1
+        rc = int(bool(exact) and self.dt != last_full)
         if exact:
             self.dt = last_full
-        return n, k, reverse
+        return n, k, reverse, rc
 
 
 def add_integrates(rng, ops, clock, syncFirst, pure=False):
@@ -468,8 +499,8 @@ def add_integrates(rng, ops, clock, syncFirst, pure=False):
             fwd = math.copysign(1., clock.dt)
             tmax = clock.t + fwd * delta
             exact = int(rng.chance(0.6))
-            n, k, rev = clock.integrate(tmax, exact)
-            toks.append("i:%d:%d:%d:%d:%d" % (n, k, exact, rev, syncFirst))
+            n, k, rev, rc = clock.integrate(tmax, exact)
+            toks.append("i:%d:%d:%d:%d:%d:%d:%d" % (n, k, exact, rev, syncFirst[0], syncFirst[1], rc))
             pyops.append(("i", tmax, exact, kind))
         else:
             if op == "s":
@@ -477,6 +508,17 @@ def add_integrates(rng, ops, clock, syncFirst, pure=False):
             toks.append(op)
             pyops.append((op,))
     return toks, pyops
+
+
+def seed_variation(s, var):
+    """add_variation() creates all-zero variational particles, which every linear map leaves at zero:
+    give them a deterministic non-trivial displacement"""
+    nreal = s.N - s.N_var
+    for i in range(nreal):
+        p = s.particles[var.index + i]
+        k = var.index + i
+        p.x, p.y, p.z = 1e-3 * math.sin(1.0 + k), 1e-3 * math.cos(2.0 + 3 * k), 1e-4 * math.sin(5.0 * k)
+        p.vx, p.vy, p.vz = 1e-3 * math.cos(0.3 + k), -1e-3 * math.sin(1.7 * k + 0.1), 1e-4 * math.cos(4.0 * k)
 
 
 def whfast_setup(o):
@@ -509,8 +551,21 @@ def replay(c, W, exe, ncases, family):
         ops = gen_ops(rng, rng.randint(3, 9))
         if "s" not in ops:
             ops.append("s")
-        toks, ops = add_integrates(rng, ops, Clock(system["dt"], family == "whfast"), W.K["syncFirst"])
-        if family == "whfast":
+        toks, ops = add_integrates(rng, ops, Clock(system["dt"], family in ("whfast", "var")), (W.K["syncFirst"], W.K["forceSync"]))
+        if family == "var":
+            mode = rng.choice(["safe", "unsafe", "keep", "keep"])
+            o = dict(coord=0, kernel=0, corrector=0, corrector2=0, safe=int(mode == "safe"), keep=int(mode == "keep"),
+                     nvar=rng.randint(1, 2))
+            system["N_active"], system["testparticle_type"] = -1, 0
+            lines.append("V %d %d 1 0 0 %s" % (o["safe"], o["keep"], " ".join(toks)))
+            base = whfast_setup(o)
+
+            def setup(s, base=base, nv=o["nvar"]):
+                base(s)
+                for _ in range(nv):
+                    seed_variation(s, s.add_variation())
+            key = ("var", o["nvar"], o["safe"], o["keep"])
+        elif family == "whfast":
             o = whfast_options(rng)
             lines.append("W %d %d %d %d %d %d %d 1 0 0 %s" % (o["coord"], o["kernel"], o["corrector"], o["corrector2"],
                                                               o["safe"], o["keep"], W.K["c2fixed"], " ".join(toks)))
@@ -534,9 +589,10 @@ def replay(c, W, exe, ncases, family):
     predicted_crashes = [0]
     nint = [0]
     for (o, system, ops, setup, key, toks), line, model in zip(cases, lines, out):
-        A = W.sim(system, family, setup)
-        B = W.sim(system, family, setup)
-        fl_of = (lambda s: s.ri_whfast.is_synchronized) if family == "whfast" else (lambda s: s.ri_saba.is_synchronized)
+        integ_name = "whfast" if family == "var" else family
+        A = W.sim(system, integ_name, setup)
+        B = W.sim(system, integ_name, setup)
+        fl_of = (lambda s: s.ri_whfast.is_synchronized) if family in ("whfast", "var") else (lambda s: s.ri_saba.is_synchronized)
         st = {}
         segs = model.split(";")
         if segs and segs[-1].startswith("error crash"):
@@ -612,7 +668,7 @@ def replay_mercurius(c, W, exe, ncases):
         if "s" not in ops:
             ops.append("s")
         safe = int(rng.chance(0.35))
-        toks, ops = add_integrates(rng, ops, Clock(system["dt"], False), W.K["syncFirst"])
+        toks, ops = add_integrates(rng, ops, Clock(system["dt"], False), (W.K["syncFirst"], W.K["forceSync"]))
         lines.append("M %d 1 0 0 0 0 %s" % (safe, " ".join(toks)))
         cases.append((safe, system, ops, toks))
     out = run_driver(exe, lines)
@@ -781,6 +837,24 @@ def integrator_configs(rng, thorough):
     cfgs += [wh(3, 0, 11, 0), wh(0, 0, 0, 1), wh(0, 0, 17, 1), wh(0, 1, 0, 0), wh(0, 2, 0, 0), wh(0, 3, 0, 0),
              wh(0, 1, 5, 0), wh(0, 2, 3, 1), wh(0, 3, 7, 0)]
 
+    def whvar(nvar, megno, corr):
+        # variational particles / MEGNO: Jacobi coordinates and the default kernel only (whfast_init)
+        def mk(mode):
+            base = whfast_setup(dict(coord=0, kernel=0, corrector=corr, corrector2=0,
+                                     safe=int(mode == "safe"), keep=int(mode == "keep")))
+
+            def f(s):
+                base(s)
+                s.N_active, s.testparticle_type = -1, 0
+                for _ in range(nvar):
+                    seed_variation(s, s.add_variation())
+                if megno:
+                    s.init_megno(seed=12345)
+            return f
+        return ("whfast var=%d megno=%d corr%d" % (nvar, megno, corr), "whfast", mk, True)
+
+    cfgs += [whvar(1, 0, 0), whvar(2, 0, 0), whvar(0, 1, 0), whvar(1, 1, 11)]
+
     def saba(t):
         def mk(mode):
             def f(s):
@@ -816,7 +890,13 @@ def integrator_configs(rng, thorough):
 
 
 def final_state(W, s, which):
+    """everything a user can observe: all N particles (variational ones included), t, MEGNO, and for
+    WHFast/SABA the internal coordinates p_jh of all N entries (pos/vel)"""
     d = {"particles": [x[:48] + x[72:80] for x in W.pbytes(s._particles, s.N)], "t": d2h(s.t)}
+    if which in ("whfast", "saba") and s.ri_whfast._N_allocated == s.N and s.N > 0:
+        d["p_jh"] = [x[:48] for x in W.pbytes(s.ri_whfast._p_jh, s.N)]
+    if s.N_var:
+        d["megno"] = d2h(s.megno()) if s._calculate_megno else None
     return d
 
 
@@ -1000,6 +1080,115 @@ def api_sequences(c, W, cfgs):
     c.cov["api_sequences_reverse_integrate_while_unsynchronised"] = nrev
 
 
+def archive_outputs(c, W, cfgs):
+    """(vi) the public output paths that combine keep_unsynchronized with integrate():
+    Simulationarchive.getSimulation(t, mode in snapshot/close/exact, keep_unsynchronized 0/1) on an
+    archive written with safe_mode=0 must lie on the safe-mode trajectory, 'exact' must end at t, and
+    with keep_unsynchronized=1 (snapshot/close) continuing to the end of the production run must
+    reproduce its final state bit for bit;  (vii) direct integrate(t, exact_finish_time=1) while
+    keep_unsynchronized=1, safe_mode=0."""
+    import warnings
+    tmpdir = tempfile.mkdtemp(prefix="c09a.", dir=os.environ.get("VERIF_TMP", "/tmp"))
+    common._scratch.append(tmpdir)
+    pick = [x for x in cfgs if x[1] in ("whfast", "saba", "mercurius") and "c2=1" not in x[0] and "var=" not in x[0]]
+    if not c.thorough:
+        pick = [x for i, x in enumerate(pick) if x[0].startswith("whfast c") and "corr0" in x[0] and " k0" in x[0]] + \
+               [x for x in pick if x[0] in ("whfast c0 k0 corr7 c2=0", "whfast c0 k2 corr0 c2=0", "saba SABA(10,6,4)", "saba SABACM2", "saba SABACL3", "mercurius")]
+    worst = {}
+    nout = 0
+    for label, integ, mk, has_keep in pick:
+        fam = label.split()[0]
+        for rep in range(3 if c.thorough else 1):
+            rng = c.rng.fork()
+            system = gen_system(rng)
+            if integ == "saba":
+                system["N_active"], system["testparticle_type"] = -1, 0
+            if integ == "mercurius":
+                system["particles"] = [p if i == 0 else (p[0] * 0.03,) + p[1:] for i, p in enumerate(system["particles"])]
+            dt = system["dt"]
+            T = dt * rng.uniform(38.3, 44.7)
+            fn = os.path.join(tmpdir, "a.bin")
+            P = W.sim(system, integ, mk("unsafe"))
+            P.save_to_file(fn, interval=dt * rng.uniform(7.2, 11.9), delete_file=True)
+            P.exact_finish_time = 0
+            W.lib.reb_simulation_integrate(ctypes.byref(P), T)
+            fin = final_state(W, P, integ)
+            fin.pop("p_jh", None)
+            with warnings.catch_warnings():
+                warnings.simplefilter("ignore")
+                sa = W.rb.Simulationarchive(fn)
+                for tget in (sa.tmin + (sa.tmax - sa.tmin) * rng.uniform(0.2, 0.5), sa.tmin + (sa.tmax - sa.tmin) * rng.uniform(0.55, 0.95)):
+                    for mode in ("snapshot", "close", "exact"):
+                        for keep in (0, 1):
+                            try:
+                                o = sa.getSimulation(tget, mode=mode, keep_unsynchronized=keep)
+                                if keep == 1 and mode == "snapshot":
+                                    o.copy().steps(1)       # the returned simulation must be usable
+                            except RuntimeError as ex:
+                                c.violation("C09:getsimulation-saba-keep-unsynchronized" if (integ == "saba" and keep == 1 and mode != "exact")
+                                            else "archive-output-raises:%s:%s" % (fam, mode),
+                                            "%s: getSimulation(t, mode=%r, keep_unsynchronized=%d) on an archive written with safe_mode=0 raises: %s"
+                                            % (label, mode, keep, str(ex)[:120]),
+                                            {"integrator": integ, "label": label, "system": system, "mode": mode, "keep_unsynchronized": keep,
+                                             "t_requested": tget, "t_end_of_production_run": T, "exception": str(ex)})
+                                continue
+                            R = W.sim(system, integ, mk("safe"))
+                            R.exact_finish_time = int(mode == "exact")
+                            W.lib.reb_simulation_integrate(ctypes.byref(R), o.t)
+                            co, cr = coords(W, o), coords(W, R)
+                            sx = max(abs(v) for p in cr for v in p[:3])
+                            sv = max(abs(v) for p in cr for v in p[3:])
+                            err = max(max(abs(a[k] - b[k]) / (sx if k < 3 else sv) for k in range(6)) for a, b in zip(co, cr))
+                            worst[fam] = max(worst.get(fam, 0.0), err)
+                            nout += 1
+                            c.count(("archive-output", label, mode, keep, rep))
+                            ttol = 1e-12 * max(abs(tget), abs(dt))       # reb_check_exit's own window
+                            t_ok = (mode != "exact") or abs(o.t - tget) <= ttol
+                            if not err <= 1e-10 or not t_ok or not abs(o.t - R.t) <= ttol:
+                                c.violation("archive-output:%s:%s" % (fam, mode),
+                                            "%s: getSimulation(t, mode=%r, keep_unsynchronized=%d) from an archive written with safe_mode=0 "
+                                            "differs from the safe-mode trajectory by %.3g relative (t=%r, requested %r)" % (label, mode, keep, err, o.t, tget),
+                                            {"integrator": integ, "label": label, "system": system, "mode": mode, "keep_unsynchronized": keep,
+                                             "t_requested": tget, "t_end_of_production_run": T, "relative_difference": err})
+                                continue
+                            if keep == 1 and mode in ("snapshot", "close") and has_keep:
+                                # bit-by-bit: the output must not have changed the trajectory
+                                o.exact_finish_time = 0
+                                W.lib.reb_simulation_integrate(ctypes.byref(o), T)
+                                fo = final_state(W, o, integ)
+                                fo.pop("p_jh", None)
+                                if fo != fin:
+                                    c.violation("archive-continue:%s:%s" % (fam, mode),
+                                                "%s: continuing from getSimulation(t, mode=%r, keep_unsynchronized=1) does not reproduce the production run bit for bit"
+                                                % (label, mode),
+                                                {"integrator": integ, "label": label, "system": system, "mode": mode, "t_requested": tget,
+                                                 "t_end_of_production_run": T})
+            # (vii) the C API: integrate with exact_finish_time=1 while keep_unsynchronized=1
+            if has_keep:
+                A = W.sim(system, integ, mk("safe"))
+                B = W.sim(system, integ, mk("keep"))
+                tq = dt * rng.uniform(5.1, 9.9)
+                for s_ in (A, B):
+                    for _ in range(3):
+                        W.lib.reb_simulation_step(ctypes.byref(s_))
+                    s_.exact_finish_time = 1
+                    W.lib.reb_simulation_integrate(ctypes.byref(s_), tq)
+                ca, cb = coords(W, A), coords(W, B)
+                sx = max(abs(v) for p in ca for v in p[:3])
+                sv = max(abs(v) for p in ca for v in p[3:])
+                err = max(max(abs(a[k] - b[k]) / (sx if k < 3 else sv) for k in range(6)) for a, b in zip(ca, cb))
+                c.count(("keep-exact", label, rep))
+                worst[fam + " keep+exact"] = max(worst.get(fam + " keep+exact", 0.0), err)
+                if not err <= 1e-10:
+                    c.violation("C09:exact-finish-with-keep-unsynchronized",
+                                "%s: integrate(t, exact_finish_time=1) with keep_unsynchronized=1, safe_mode=0 differs from safe mode by %.3g relative"
+                                % (label, err),
+                                {"integrator": integ, "label": label, "system": system, "calls": ["step", "step", "step", "integrate(%r, exact_finish_time=1)" % tq],
+                                 "relative_difference": err})
+    c.cov["archive_outputs_checked"] = nout
+    c.cov["archive_outputs_worst_relative_difference"] = {k: float("%.3g" % v) for k, v in sorted(worst.items())}
+
+
 def search(c, W):
     rng0 = c.rng.fork()
     cfgs = integrator_configs(rng0, c.thorough)
@@ -1158,6 +1347,7 @@ def search(c, W):
     c.cov["eos_difference_over_truncation_error"] = {k: float("%.3g" % v) for k, v in sorted(eos_ratio.items())}
     c.cov["search_configurations"] = len(cfgs)
     api_sequences(c, W, cfgs)
+    archive_outputs(c, W, cfgs)
 
 
 def run(c):
@@ -1184,6 +1374,7 @@ def run(c):
     footprints(c, W, exe)
     replay(c, W, exe, 8000 if c.thorough else 60, "whfast")
     replay(c, W, exe, 5000 if c.thorough else 40, "saba")
+    replay(c, W, exe, 2000 if c.thorough else 30, "var")
     replay_mercurius(c, W, exe, 3000 if c.thorough else 30)
     probe_first_call(c, d)
     search(c, W)
